@@ -4,6 +4,7 @@ shapes that translate/shapes.py extracted from read-fonts/generated/*.rs (Gen/Re
   shape <name> <hex> <arg>…      → `err:<Kind>` | `ok <range>…` one `a..b` / `none` / `panic` per field
                                     (what `T::read[_with_args]` returns and what every
                                     `shape.<f>_byte_range()` evaluates to)
+  resolve <name> <hex> <off> <arg>… → `null` | `err:<Kind>` | `ok <range>…`: `Offset32(off).resolve[_with_args]::<T>(data)`
   getters <name> <hex> <arg>…    → `err` | `ok all` | `ok except <i>…`: the generated getters whose
                                     unwrapped `Option`/`Result` is not `Some`/`Ok` (`getterOk`, decided)
   recread <record> <n> <arg>…    → `1` / `0`: `R::read_with_args(n bytes, args).is_ok()`
@@ -82,6 +83,20 @@ def handle (cmd : String) (args : List String) : Option String :=
                                          | none => "missing")
         some ("ok " ++ " ".intercalate rs)
     | _, _, _ => none
+  | "resolve", name :: hex :: off :: rest =>
+    match findShape name, parseHex? hex, parseNat? off, parseNats? rest with
+    | some s, some bytes, some off, some argVals =>
+      if argVals.length ≠ s.args.length then none else
+      let d := mkData bytes
+      match resolve ext s d off argVals with
+      | .null => some "null"
+      | .err e => some (errStr e)
+      | .ok m =>
+        let rs := s.fields.map (fun f => match rangeById m [] s.fields f.id with
+                                         | some r => rrStr r
+                                         | none => "missing")
+        some ("ok " ++ " ".intercalate rs)
+    | _, _, _, _ => none
   | "getters", name :: hex :: rest =>
     match findShape name, parseHex? hex, parseNats? rest with
     | some s, some bytes, some argVals =>
